@@ -3,7 +3,7 @@ import json
 import core, gen
 
 # same order as BlankShape in spec/Syntax.tla
-BLANKS = ["", " ", "  ", "\t", "\n", "\n\n", " # note\n", "\n    ", "\f", " \n# a | b ; (c\n  "]
+BLANKS = ["", " ", "  ", "\t", "\n", "\n\n", " # note\n", "\n    ", "\f", " \n# a | b ; (c\n  ", " #\n", "\r\n"]
 
 
 def default_ids(toks):
